@@ -397,8 +397,10 @@ def infoset(text):
                 "description": [c.text for c in e.findall(X + "Description")],
                 "refs": [{"attrs": [[k, v] for k, v in r.attrib.items()], "text": r.text}
                          for rs in e.findall(X + "References") for r in rs.findall(X + "Reference")],
-                "value": None if val is None or len(val) < 1 else elem_json(val[0]),
             })
+            if val is not None and len(val) >= 1:
+                import xmltree
+                d["nodes"][-1]["value"] = xmltree.resolved(val[0])
     return d
 
 
